@@ -534,7 +534,31 @@ func rulesC20(c *Ctx) {
 				continue
 			}
 			viaLocal := false
-			if lv, isV := cp.ObjOf(r.Results[0]).(*types.Var); isV && !lv.IsField() && !isNilIdent(r.Results[0]) {
+			if lv, isV := cp.ObjOf(r.Results[0]).(*types.Var); isV && !lv.IsField() && !isNilIdent(r.Results[0]) && func() bool {
+				// only for a result variable in the sense of an expanded helper: declared without a value, then given
+				// alternative values by plain assignments that do not read it (a slice built up by append is one value)
+				declared := false
+				for _, w := range Writes(cp.Body, false) {
+					if cp.ObjOf(w.LHS) != types.Object(lv) {
+						continue
+					}
+					if _, isVS := w.Stmt.(*ast.ValueSpec); isVS && w.RHS == nil {
+						declared = true
+						continue
+					}
+					if w.Tok != token.ASSIGN {
+						return false
+					}
+					if as, isAs := w.Stmt.(*ast.AssignStmt); isAs {
+						for _, rhs := range as.Rhs {
+							if cp.Mentions(rhs, lv) {
+								return false
+							}
+						}
+					}
+				}
+				return declared
+			}() {
 				rv := g.VertexOf(r)
 				for _, w := range Writes(cp.Body, false) {
 					if cp.ObjOf(w.LHS) != types.Object(lv) {
